@@ -38,7 +38,7 @@ LEVEL_NOTE = "Trusted: the reference model's error trees and message templates (
 
 
 def strategy(tier):
-    cfg = {"max_depth": 3 if tier == "quick" else 4, "generics": True, "leaf_validators": True}
+    cfg = {"max_depth": 3 if tier == "quick" else 4, "generics": True, "root_schema": True, "leaf_validators": True}
     return tdcase.td_cases(cfg, n_data=(4, 10), mix=(5, 20, 60, 15))
 
 
@@ -152,7 +152,7 @@ def _evaluate(case, ctx, b, prog, opts):
             ctx.h("duplicate_entries_seen")
         # (a) exact list against the model
         try:
-            verdict, val = model.deserialize(prog["root"], d)
+            verdict, val = model.deserialize(prog["root"], d, opts.get("root_schema"))
         except M.Unspecified:
             ctx.h("unspecified")
             verdict = None
